@@ -192,11 +192,21 @@ pub fn select(s: &S) -> SelectStatement {
             "distincton" => {
                 q.distinct_on(l.iter().map(exprs::colref).collect::<Vec<ColumnRef>>());
             }
+            // where a convenience method is documented to do the same as the canonical call, part of the cases go
+            // through it (hash of the clause text): the model is indifferent
             "col" => {
-                q.column(exprs::colref(&l[0]));
+                if exprs::shash(c) % 2 == 0 {
+                    q.column(exprs::colref(&l[0]));
+                } else {
+                    q.columns([exprs::colref(&l[0])]);
+                }
             }
             "expr" => {
-                q.expr(expr(&l[0]));
+                if exprs::shash(c) % 2 == 0 {
+                    q.expr(expr(&l[0]));
+                } else {
+                    q.exprs([expr(&l[0])]);
+                }
             }
             "expras" => {
                 q.expr_as(expr(&l[0]), id(&l[1]));
@@ -214,22 +224,85 @@ pub fn select(s: &S) -> SelectStatement {
                 q.expr_window_name_as(expr(&l[0]), id(&l[1]), id(&l[2]));
             }
             "from" => {
-                q.from(tref(&l[0]));
+                let t = &l[0];
+                let alt = exprs::shash(c) % 2 == 1;
+                match t.head() {
+                    "tsub" if alt => {
+                        q.from_subquery(select(&t.args()[0]), id(&t.args()[1]));
+                    }
+                    "tvalues" if alt => {
+                        let rows: Vec<ValueTuple> = t.args()[1..]
+                            .iter()
+                            .map(|r| ValueTuple::Many(r.args().iter().map(value).collect()))
+                            .collect();
+                        q.from_values(rows, id(&t.args()[0]));
+                    }
+                    "ta" if alt => {
+                        // from_as(table without alias, alias)
+                        let mut parts = vec![S::A("t".to_string())];
+                        parts.extend(t.args()[1..].iter().cloned());
+                        q.from_as(tref(&S::L(parts)), id(&t.args()[0]));
+                    }
+                    _ => {
+                        q.from(tref(t));
+                    }
+                }
             }
             "join" => {
-                q.join(jointype(&l[0]), tref(&l[1]), conds::cond_or_expr(&l[2]));
+                let jt = jointype(&l[0]);
+                let t = &l[1];
+                let on = conds::cond_or_expr(&l[2]);
+                match (exprs::shash(c) % 3, t.head()) {
+                    (1, "tsub") => {
+                        q.join_subquery(jt, select(&t.args()[0]), id(&t.args()[1]), on);
+                    }
+                    (1, "ta") => {
+                        let mut parts = vec![S::A("t".to_string())];
+                        parts.extend(t.args()[1..].iter().cloned());
+                        q.join_as(jt, tref(&S::L(parts)), id(&t.args()[0]), on);
+                    }
+                    (2, _) => {
+                        // the shortcut named after the join type
+                        match l[0].atom() {
+                            "cross" => q.cross_join(tref(t), on),
+                            "left" => q.left_join(tref(t), on),
+                            "right" => q.right_join(tref(t), on),
+                            "inner" => q.inner_join(tref(t), on),
+                            "full" => q.full_outer_join(tref(t), on),
+                            _ => q.join(jt, tref(t), on),
+                        };
+                    }
+                    _ => {
+                        q.join(jt, tref(t), on);
+                    }
+                }
             }
             "joinlateral" => {
                 q.join_lateral(jointype(&l[0]), select(&l[1]), id(&l[2]), conds::cond_or_expr(&l[3]));
             }
             "andwhere" => {
-                q.and_where(expr(&l[0]));
+                if exprs::shash(c) % 2 == 0 {
+                    q.and_where(expr(&l[0]));
+                } else {
+                    q.and_where_option(Some(expr(&l[0])));
+                }
             }
             "condwhere" => {
                 q.cond_where(conds::cond(&l[0]));
             }
             "groupby" => {
-                q.add_group_by([expr(&l[0])]);
+                let is_col = matches!(l[0].head(), "col" | "star" | "tstar");
+                match (exprs::shash(c) % 3, is_col) {
+                    (1, true) => {
+                        q.group_by_col(exprs::colref(&l[0]));
+                    }
+                    (2, true) => {
+                        q.group_by_columns([exprs::colref(&l[0])]);
+                    }
+                    _ => {
+                        q.add_group_by([expr(&l[0])]);
+                    }
+                }
             }
             "andhaving" => {
                 q.and_having(expr(&l[0]));
@@ -245,11 +318,23 @@ pub fn select(s: &S) -> SelectStatement {
                     "all" => UnionType::All,
                     _ => panic!("union type"),
                 };
-                q.union(ut, select(&l[1]));
+                if exprs::shash(c) % 2 == 0 {
+                    q.union(ut, select(&l[1]));
+                } else {
+                    q.unions([(ut, select(&l[1]))]);
+                }
             }
             "orderby" => {
+                let is_col = matches!(l[0].head(), "col" | "star" | "tstar");
+                let alt = exprs::shash(c) % 2 == 1 && is_col;
                 if l.len() > 2 {
-                    q.order_by_expr_with_nulls(expr(&l[0]), order(&l[1]), nulls(&l[2]));
+                    if alt {
+                        q.order_by_with_nulls(exprs::colref(&l[0]), order(&l[1]), nulls(&l[2]));
+                    } else {
+                        q.order_by_expr_with_nulls(expr(&l[0]), order(&l[1]), nulls(&l[2]));
+                    }
+                } else if alt {
+                    q.order_by(exprs::colref(&l[0]), order(&l[1]));
                 } else {
                     q.order_by_expr(expr(&l[0]), order(&l[1]));
                 }
@@ -280,6 +365,8 @@ pub fn select(s: &S) -> SelectStatement {
                     None
                 };
                 match (tables.is_empty(), beh) {
+                    (true, None) if exprs::shash(c) % 2 == 1 && l[0].atom() == "update" => q.lock_exclusive(),
+                    (true, None) if exprs::shash(c) % 2 == 1 && l[0].atom() == "share" => q.lock_shared(),
                     (true, None) => q.lock(lt),
                     (false, None) => q.lock_with_tables(lt, tables),
                     (true, Some(b)) => q.lock_with_behavior(lt, b),
